@@ -371,8 +371,8 @@ func TestC23(t *testing.T) {
 			rep.Violation(ci, sig, viol, detail())
 		default:
 			// end state: no active or pending requests, no allocated memory
-			bad := ""
-			if ok, _ := w.Quiesce(); ok {
+			endState := func() string {
+				bad := ""
 				for _, n := range append([]*GSNode{A}, Bs...) {
 					st := n.GS.Stats()
 					if st.OutgoingRequests.Active != 0 || st.OutgoingRequests.Pending != 0 || st.IncomingRequests.Active != 0 || st.IncomingRequests.Pending != 0 {
@@ -382,11 +382,13 @@ func TestC23(t *testing.T) {
 						bad = fmt.Sprintf("%s: after all requests ended %d bytes are still allocated (%d pending)", n.Name, st.OutgoingResponses.TotalAllocatedAllPeers, st.OutgoingResponses.TotalPendingAllocations)
 					}
 				}
+				return bad
 			}
-			if bad != "" {
-				if ok, _ := w.Q.Sustained(2 * time.Second); ok {
-					rep.Violation(ci, "C23/end-state-not-zero", bad, detail())
-				}
+			// (re-evaluated after a window in which nothing at all happened)
+			if bad, unstable := w.ConfirmStable(endState, 2*time.Second); unstable != "" {
+				rep.Inconclusive("case %d: %s", ci, unstable)
+			} else if bad != "" {
+				rep.Violation(ci, "C23/end-state-not-zero", bad, detail())
 			}
 			rep.Nontrivial(rt.Key("c23", ci, len(trace)))
 			rep.Count("quiescent_snapshots", int64(snapshots))
